@@ -88,8 +88,10 @@ def _from_soap(in_envelope_xml, xmlids=None, **kwargs):
         header = header_envelope[0].getchildren()
 
     body = None
-    if len(body_envelope) > 0 and len(body_envelope[0]) > 0:
-        body = body_envelope[0][0]
+    if len(body_envelope) > 0:
+        # the first child *element*: an unresolved entity reference is a child
+        # node as well, and its tag is not a string
+        body = next(body_envelope[0].iterchildren('*'), None)
 
     return header, body
 
